@@ -219,7 +219,8 @@ func (h *handler) Handle(ctx context.Context) {
 			}
 
 		case <-h.activityChan:
-			// a message that was dropped on reception: the client is not idle
+			// an update was received (it waits for its frame, or was dropped):
+			// the client is not idle
 			idleTimer.Stop()
 			idleTimer.Reset(idleTimeout)
 
@@ -357,17 +358,21 @@ func (h *handler) dispatch(ctx context.Context, msg hwebsocket.Msg) error {
 		// for the one it is about to join, where the same ids name other things.
 		h.dispatcher.HandleFrame()
 
-	case hagallpb.MsgType_MSG_TYPE_ENTITY_UPDATE_POSE:
+	case hagallpb.MsgType_MSG_TYPE_ENTITY_UPDATE_POSE, hagallpb.MsgType_MSG_TYPE_ENTITY_COMPONENT_UPDATE:
+		// An update is a sign of life when it is received, not when its frame
+		// comes: a connection that is in no session has no frames.
+		select {
+		case h.activityChan <- struct{}{}:
+		default:
+		}
+
 		// An update without a pose is dropped when it is handled: it must not
 		// take the place of the update with a pose that waits for the frame.
-		var eup hagallpb.EntityUpdatePose
-		if err := msg.DataTo(&eup); err == nil && eup.Pose == nil {
-			// it still counts as a sign of life
-			select {
-			case h.activityChan <- struct{}{}:
-			default:
+		if msg.Type == hagallpb.MsgType_MSG_TYPE_ENTITY_UPDATE_POSE {
+			var eup hagallpb.EntityUpdatePose
+			if err := msg.DataTo(&eup); err == nil && eup.Pose == nil {
+				return nil
 			}
-			return nil
 		}
 	}
 
